@@ -30,18 +30,18 @@ pub fn create(array: InstructionWithStr) -> Result<Instruction, Error> {
     .into())
 }
 
-pub fn exec(var: Variable) -> ExecResult {
-    let return_type = var.as_type();
-    if return_type.matches(&var_type!(() -> (bool, int))) {
-        return Ok(Variable::from(INT_PRODUCT)
-            .as_function()
-            .unwrap()
-            .exec_with_args(&[var])?);
-    }
-    Ok(Variable::from(FLOAT_PRODUCT)
-        .as_function()
-        .unwrap()
-        .exec_with_args(&[var])?)
+pub fn exec(var: Variable, static_type: Type) -> ExecResult {
+    // see sum::exec: an iterator over nothing takes its element type from the static type
+    let element = match var.as_type().iter_element() {
+        Some(Type::Never) | None => static_type.iter_element().unwrap_or(Type::Never),
+        Some(element) => element,
+    };
+    let product = if element == Type::Never || Type::Int.matches(&element) {
+        Variable::from(INT_PRODUCT)
+    } else {
+        Variable::from(FLOAT_PRODUCT)
+    };
+    Ok(product.as_function().unwrap().exec_with_args(&[var])?)
 }
 
 #[cfg(test)]
